@@ -66,9 +66,18 @@ type c09Case struct {
 	} `json:"c"`
 	Script string `json:"script"`
 	Down   string `json:"down"`
+	Port   struct {
+		Cfg   string `json:"cfg"`   // fixed: RedirAddr names a port; none: it does not
+		Lp    string `json:"lp"`    // listener (A / B) this connection arrived on
+		First string `json:"first"` // listener of an earlier redirected connection of the same State (none / A / B)
+	} `json:"port"`
 }
 
+// the model's ports: listeners A and B of one State, P = the port named in RedirAddr
+var c09Ports = map[string]int{"A": 443, "B": 80, "P": 8080}
+
 type c09Obs struct {
+	Dial     string `json:"dial"`
 	Outcome  string `json:"outcome"`
 	Phase    string `json:"phase"`
 	Consumed int    `json:"consumed"`
@@ -115,11 +124,17 @@ type c09Scenario struct {
 	Class string `json:"class"` // garbage, badhello, badkey, replay, window, encmethod, method, uid, ok, nosession, none, short, bogus ...
 	// Present the first packet once to the same server state before the scenario (class replay)
 	PresentFirst bool `json:"present_first"`
-	ClockSkewS   int  `json:"clock_skew_s"` // informational (the skew is sealed inside the hello)
-	stream       []byte
-	exp          []*c09Obs // model expectation after each step (nil for explored scenarios)
-	m            *c09Map
-	banner       int
+	// redirect-port configuration: RedirAddr without a port (the target port is then the port the peer connected to,
+	// dispatcher.go goWeb: conn.LocalAddr), the bind port this connection arrives on (0 = 443), and the bind ports of
+	// earlier unauthenticated connections handled by the same State, in order
+	NoRedirPort bool  `json:"redir_addr_without_port"`
+	LocalPort   int   `json:"local_port"`
+	Priors      []int `json:"earlier_connections_on_ports"`
+	ClockSkewS  int   `json:"clock_skew_s"` // informational (the skew is sealed inside the hello)
+	stream      []byte
+	exp         []*c09Obs // model expectation after each step (nil for explored scenarios)
+	m           *c09Map
+	banner      int
 }
 
 func (sc *c09Scenario) bytes() []byte {
@@ -616,6 +631,13 @@ func c09Concretise(b *c09Behaviour, rng *kit.Rng, variant int) (*c09Scenario, er
 	k := b.K
 	cs := b.Case.C
 	sc := &c09Scenario{Script: b.Case.Script, Down: b.Case.Down, Class: cs.Content, m: &c09Map{}}
+	if pc := b.Case.Port; pc.Cfg != "" {
+		sc.NoRedirPort = pc.Cfg == "none"
+		sc.LocalPort = c09Ports[pc.Lp]
+		if pc.First != "none" {
+			sc.Priors = []int{c09Ports[pc.First]}
+		}
+	}
 	trail := rng.Bytes(2 + rng.Intn(300))
 	if variant%3 == 1 {
 		trail = rng.Bytes(k.Trail)
@@ -797,13 +819,20 @@ type c09Dialer struct {
 	sc     *c09Scenario
 	tgt    *c09Target
 	lastTo string
+	mute   bool // an earlier connection of the same State is being handled: its target is a sink, nothing is recorded
 }
 
 func (d *c09Dialer) Dial(network, address string) (net.Conn, error) {
 	d.tgt.mu.Lock()
 	d.tgt.dials++
-	d.lastTo = network + "/" + address
+	d.lastTo = address
+	mute := d.mute
 	d.tgt.mu.Unlock()
+	if mute {
+		l := d.tn.NewLink(false, false)
+		go func() { io.Copy(io.Discard, l.End(1)); l.End(1).Close() }()
+		return l.End(0), nil
+	}
 	switch d.sc.Down {
 	case "refuse":
 		return nil, errors.New("dial tcp: connection refused")
@@ -881,6 +910,17 @@ func c09NewState(d common.Dialer, proxy common.Dialer) *State {
 			uploadInterval:   defaultUploadInterval,
 		},
 	}
+}
+
+// c09PortConn gives an in-memory connection the local address of a listener: goWeb takes the redirect port from
+// conn.LocalAddr() when RedirAddr has none.
+type c09PortConn struct {
+	net.Conn
+	port int
+}
+
+func (c c09PortConn) LocalAddr() net.Addr {
+	return &net.TCPAddr{IP: net.IPv4(203, 0, 113, 5), Port: c.port}
 }
 
 type c09Addr string
@@ -980,6 +1020,34 @@ func c09Run(t *testing.T, sc *c09Scenario) (res c09Result) {
 				_, _, _ = AuthFirstPacket(stream[:stop], tr, sta)
 			}
 		}
+		if sc.NoRedirPort {
+			sta.RedirPort = "" // what parseRedirAddr yields for a RedirAddr without a port
+		}
+		localPort := sc.LocalPort
+		if localPort == 0 {
+			localPort = 443
+		}
+		wantAddr := net.JoinHostPort(sta.RedirHost.String(), sta.RedirPort)
+		if sc.NoRedirPort {
+			wantAddr = net.JoinHostPort(sta.RedirHost.String(), fmt.Sprint(localPort))
+		}
+		// earlier unauthenticated connections on the same State, each on its own listener, each redirected and gone
+		for _, p := range sc.Priors {
+			dialer.mute = true
+			l0 := vn.NewLink(false, false)
+			go func() {
+				defer func() { recover() }()
+				dispatchConnection(c09PortConn{l0.End(1), p}, sta)
+			}()
+			l0.End(0).Write([]byte{0x00, 0x01, 0x02})
+			synctest.Wait()
+			l0.End(0).Close()
+			synctest.Wait()
+			tgt.mu.Lock()
+			tgt.dials = 0
+			dialer.mute = false
+			tgt.mu.Unlock()
+		}
 		link := vn.NewLink(false, false)
 		peer := link.End(0)
 		var pmu sync.Mutex
@@ -1008,7 +1076,7 @@ func c09Run(t *testing.T, sc *c09Scenario) (res c09Result) {
 					handlerDone.Store(true)
 				}
 			}()
-			dispatchConnection(link.End(1), sta)
+			dispatchConnection(c09PortConn{link.End(1), localPort}, sta)
 			handlerDone.Store(true)
 		}()
 		synctest.Wait()
@@ -1075,6 +1143,13 @@ func c09Run(t *testing.T, sc *c09Scenario) (res c09Result) {
 				viol("relay:target-not-prefix", "after step %d (%s) the target has received %d bytes that are not a prefix of the %d bytes the peer sent: first difference at offset %d",
 					i, st.A, len(tRecv), sent, d)
 			}
+			tgt.mu.Lock()
+			dialled := dialer.lastTo
+			tgt.mu.Unlock()
+			if dials > 0 && dialled != wantAddr {
+				viol("relay:wrong-target", "after step %d (%s) the peer connected to port %d (RedirAddr %s, earlier connections of this server on ports %v) was relayed to %s; the configured redirect target for it is %s",
+					i, st.A, localPort, map[bool]string{true: "without a port", false: "with port " + "8080"}[sc.NoRedirPort], sc.Priors, dialled, wantAddr)
+			}
 			if foreign && sc.Class != "ok" {
 				d := 0
 				for d < len(pRecv) && d < len(tSent) && pRecv[d] == tSent[d] {
@@ -1119,6 +1194,9 @@ func c09Run(t *testing.T, sc *c09Scenario) (res c09Result) {
 				var d []string
 				if e.Outcome != snap.Outcome {
 					d = append(d, fmt.Sprintf("outcome %s, model %s", snap.Outcome, e.Outcome))
+				}
+				if e.Dial != "" && e.Dial != "none" && dials > 0 && !strings.HasSuffix(dialled, fmt.Sprintf(":%d", c09Ports[e.Dial])) {
+					d = append(d, fmt.Sprintf("dialled %s, model port %s", dialled, e.Dial))
 				}
 				// a target that hangs up after its first read may have read just the replayed prefix or more: both are
 				// behaviours of the model (CopyUp and the target's close are concurrent); the prefix check above still applies
@@ -1617,6 +1695,36 @@ func TestVerifC09Explore(t *testing.T) {
 				m[pos] = old ^ (1 << uint(rng.Intn(8)))
 			}
 			mk("mutated-hello", fmt.Sprintf("unauthorised %s hello, byte %d: %#02x -> %#02x", b, pos, old, m[pos]), "uid", m, whole(len(m)), false)
+		}
+	}
+	// F6: one State, two listeners, RedirAddr with and without a port: a sequence of unauthenticated connections
+	// alternating between the listeners (A, B, A, B ...); every member of the sequence is judged in its own run with
+	// the earlier ones replayed first.  Each peer must reach the target of ITS OWN port when RedirAddr has none.
+	for _, noPort := range []bool{true, false} {
+		for _, startPort := range []int{443, 80} {
+			for length := 1; length <= 5; length++ {
+				var priors []int
+				port := startPort
+				for i := 1; i < length; i++ {
+					priors = append(priors, port)
+					port = 443 + 80 - port
+				}
+				for ci, c := range corpus {
+					if !(strings.HasPrefix(c.name, "get-plain") || strings.HasSuffix(c.name, "-unauthorised") || strings.HasSuffix(c.name, "-foreign") ||
+						c.name == "record-declared-65535-present-1" || c.name == "random-0") {
+						continue
+					}
+					mk("port-sequence", fmt.Sprintf("%s as connection %d of a sequence alternating between ports %d and %d", c.name, length, startPort, 443+80-startPort),
+						c.class, c.stream, whole(len(c.stream)), c.replay)
+					j := jobs[len(jobs)-1].sc
+					j.NoRedirPort, j.LocalPort, j.Priors = noPort, port, append([]int{}, priors...)
+					if ci%2 == 0 {
+						j.Script, j.Down = "banner", "up"
+					} else {
+						j.Script, j.Down = "echo", "up"
+					}
+				}
+			}
 		}
 	}
 	// control: an authorised, fresh handshake is served (the rig can tell the difference)
